@@ -271,3 +271,102 @@ def h_mro_model(s1: int, s2: int, s3: int, defmask: int, docsel: int, generic: b
     with NoTracing():
         ok = check_model(blists, defmask, docmask, generic)
     return done(ok)
+
+
+# ---------------------------------------------------------------- K05c hierarchies spread over several modules
+from lib import projects as PJ
+
+MODNAMES = [["ma", "mb", "mc"], ["zc", "yb", "xa"]]     # ascending / descending: bases processed first / last
+_PLACEMENTS = [p for p in itertools.product(range(3), repeat=4) if p[0] == 0 and all(p[i] <= p[i + 1] <= p[i] + 1 for i in range(3))]
+
+
+def gen_project(blists, placement, style, rev, defmask):
+    """class i lives in module placement[i]; a base in another module is named through
+    style 0: from pkg.M import B / 1: import pkg.M as al_M ... al_M.B / 2: import pkg.M ... pkg.M.B"""
+    names = MODNAMES[rev]
+    mods = {k: [] for k in sorted(set(placement))}
+    imports = {k: [] for k in mods}
+    for i, bs in enumerate(blists):
+        k = placement[i]
+        refs = []
+        for b in bs:
+            kb = placement[b]
+            if kb == k:
+                refs.append(NAMES[b])
+            else:
+                mod = "pkg." + names[kb]
+                if style == 0:
+                    imp, ref = "from %s import %s" % (mod, NAMES[b]), NAMES[b]
+                elif style == 1:
+                    imp, ref = "import %s as al_%s" % (mod, names[kb]), "al_%s.%s" % (names[kb], NAMES[b])
+                else:
+                    imp, ref = "import %s" % mod, "%s.%s" % (mod, NAMES[b])
+                if imp not in imports[k]:
+                    imports[k].append(imp)
+                refs.append(ref)
+        body = "    def m(self):\n        '''doc %s'''\n" % NAMES[i] if (defmask >> i) & 1 else "    pass\n"
+        mods[k].append("class %s%s:\n%s" % (NAMES[i], "(" + ", ".join(refs) + ")" if refs else "", body))
+    sources = {"pkg": ("", True)}
+    for k in mods:
+        sources["pkg." + names[k]] = ("\n".join(imports[k]) + "\n" + "".join(mods[k]), False)
+    where = {NAMES[i]: "pkg." + names[placement[i]] for i in range(len(blists))}
+    return sources, where
+
+
+def check_multimodule(blists, placement, style, rev, defmask):
+    try:
+        for c in range(len(blists)):
+            ref_mro(c, {i: bs for i, bs in enumerate(blists)})
+    except ValueError:
+        return True          # inconsistent hierarchies are K05b's subject (one module, no import failure)
+    sources, where = gen_project(blists, placement, style, rev, defmask)
+    pym = PJ.run_cpython(sources)
+    s = PJ.build(sources)
+    if [m for sec, m, _t in s.msgs if sec == "mro"]:
+        note(why="spurious mro warning", sources=sources)
+        return False
+    for nm, modname in where.items():
+        pc = getattr(pym[modname], nm)
+        c = s.allobjects.get(modname + "." + nm)
+        if c is None:
+            note(why="class not documented", name=nm, sources=sources)
+            return False
+        got = [x.fullName() for x in c.mro()]
+        want = [k.__module__ + "." + k.__qualname__ for k in pc.__mro__ if k is not object]
+        if got != want:
+            note(why="mro differs from Python's", cls=modname + "." + nm, got=got, want=want, sources=sources)
+            return False
+        f = c.find("m")
+        wantdef = next((k.__module__ + "." + k.__qualname__ for k in pc.__mro__ if "m" in vars(k)), None)
+        if (f.parent.fullName() if f is not None else None) != wantdef:
+            note(why="find() attributes m to the wrong class", cls=nm, got=f and f.parent.fullName(), want=wantdef, sources=sources)
+            return False
+    return True
+
+
+@harness(
+    parts=lambda: [[pi, st, rv] for pi in range(len(_PLACEMENTS)) for st in range(3) for rv in range(2)],
+    timeout=(240, 1800), cls="E", tracing="concrete-after-choice", twin="first",
+    code=["pydoctor.model.compute_mro (two-pass base resolution)", "pydoctor.model.Class._init_mro/mro/find", "pydoctor.astbuilder.ModuleVistor.visit_ClassDef/visit_Import/visit_ImportFrom",
+          "pydoctor.model.System.process/getProcessedModule", "pydoctor.model.Documentable.resolveName/expandName"],
+    bounds={"quick": "4 classes, all 160 ordered-base hierarchies (consistent ones) x 7 placements over <=3 modules of one package (later classes in the same or the next module) x 3 ways of naming a base in another module (from-import, aliased module import, dotted module import) x module names sorting before/after their dependencies x 2 member placements",
+            "thorough": "same with 4 member placements"},
+    outside="import cycles between the modules (C06), re-exports (C07), more than 3 modules",
+)
+def h_mro_multimodule(s1: int, s2: int, s3: int, dsel: int) -> bool:
+    """
+    pre: 0 <= s1 <= 1 and 0 <= s2 <= 4 and 0 <= s3 <= 15 and 0 <= dsel <= NDSEL - 1
+    post: _
+    """
+    pi, style, rev = PART if PART is not None else [3, 1, 1]
+    s1 = pick(s1, 0, 1)
+    s2 = pick(s2, 0, 4)
+    s3 = pick(s3, 0, 15)
+    dsel = pick(dsel, 0, NDSEL - 1)
+    with NoTracing():
+        blists = [[], _SUBS[1][s1], _SUBS[2][s2], _SUBS[3][s3]]
+        ok = check_multimodule(blists, _PLACEMENTS[pi], style, rev, [0b0001, 0b0110, 0b1111, 0b1001][dsel])
+    return done(ok)
+
+
+NDSEL = tier(2, 4)
